@@ -104,6 +104,8 @@ def gen_facts():
                     valid_fits.append((top.name, decs[0] == 'check_valid_values'))
                 if m.name == 'check_fit':
                     shapes[f'check_fit:{top.name}'] = _check_fit_shape(m)
+                if m.name == '_check_constant_value' and top.name == 'Univariate':
+                    shapes['check_constant_value'] = _check_fit_shape(m)      # F5 fix: resets the degenerate state
                 if m.name in QUERY_METHODS and not facts.is_abstract(m) and not m.name.startswith('_'):
                     (checked if _calls_check_fit_first(m) else unchecked).append((top.name, m.name))
                 if m.name in ('fit', '_fit', '_fit_constant', '_set_constant_value', '_replace_constant_methods',
@@ -131,7 +133,7 @@ def gen_facts():
              + ';\n  '.join(f'({cs(k)}, {cs(v or "")})' for k, v in sorted(shapes.items())) + '].']
     py = {'store_args': sorted(store_args), 'validated_fits': sorted(valid_fits), 'check_fit_first': sorted(checked),
           'no_check_fit_first': sorted(unchecked), 'fit_writes': sorted(writes), 'shapes': shapes}
-    for need in ('check_valid_values', 'get_instance', 'store_args', 'check_fit:Univariate', 'check_fit:Multivariate',
+    for need in ('check_valid_values', 'get_instance', 'store_args', 'check_constant_value', 'check_fit:Univariate', 'check_fit:Multivariate',
                  'check_fit:Bivariate'):
         if not shapes.get(need):
             problems.append(f'cannot find {need} in the source')
